@@ -18,3 +18,7 @@ pub assume_specification[ <std::string::String as std::convert::AsRef<str>>::as_
 pub assume_specification<T>[ std::option::Option::<T>::or ](a: std::option::Option<T>, b: std::option::Option<T>) -> (r: std::option::Option<T>)
     where T: core::marker::Destruct
     ensures r == (if a is Some { a } else { b });
+
+// HashSet::is_subset
+pub assume_specification<T: core::cmp::Eq + core::hash::Hash, S: core::hash::BuildHasher, A: std::alloc::Allocator>[ std::collections::HashSet::<T, S, A>::is_subset ](a: &std::collections::HashSet<T, S, A>, b: &std::collections::HashSet<T, S, A>) -> (r: bool)
+    ensures r == a@.subset_of(b@);
